@@ -77,15 +77,27 @@ Definition mkc (allowed : option (list Z)) (var : option nat) : constr Z :=
               | Some l => fun a => existsb (Z.eqb a) l
               end;
      cvar := var |}.
-Definition mkarg (k : kind) (allowed : option (list Z)) (var : option nat) : argdef Z :=
-  {| akind := k; aconstr := mkc allowed var |}.
+(* an int constraint: IntVarConstraint(var, base) / base, as a constraint on int VALUES (zof_int k):
+   allowed = None is AnyInt, Some l is membership of k in l; variable keys of int variables are
+   chosen disjoint from those of attribute variables by the harness (10 + i) *)
+Definition mkic (allowed : option (list Z)) (var : option nat) : constr Z :=
+  {| cpred := match allowed with
+              | None => fun _ => true
+              | Some l => fun a => existsb (Z.eqb a) (map zof_int l)
+              end;
+     cvar := var |}.
+Definition mkarg (k : kind) (allowed : option (list Z)) (var : option nat) (length : option (constr Z))
+  : argdef Z := {| akind := k; aconstr := mkc allowed var; alen := length |}.
 Definition mkreg (k : kind) (single : bool) (allowed : option (list Z)) (var : option nat)
-  : regiondef Z := {| rkind := k; rsingle := single; rentry := mkc allowed var |}.
+  (length : option (constr Z)) : regiondef Z :=
+  {| rkind := k; rsingle := single; rentry := mkc allowed var; rlen := length |}.
 Definition mknamed (optional : bool) (allowed : option (list Z)) (var : option nat)
-  : bool * constr Z := (optional, mkc allowed var).
+  : bool * nconstr Z := (optional, NAttr Z (mkc allowed var)).
+(* prop_def(IntAttr.constr(<int constraint>)) *)
+Definition mknamed_int (optional : bool) (ic : constr Z) : bool * nconstr Z := (optional, NIntAttr Z ic).
 
 Definition enc_obs (v : version) (d : opdef Z) (x : accessors) (o : opinst Z) : sx :=
-  L [enc_res enc_unit (opdef_verify Z Z.eqb v d x o);
+  L [enc_res enc_unit (opdef_verify Z Z.eqb v zof_int zas_int d x o);
      enc_accessors (x_operands x) (o_opseg Z o) (length (o_operands Z o));
      enc_accessors (x_results x) (o_resseg Z o) (length (o_results Z o));
      enc_accessors (x_regions x) (o_regseg Z o) (length (o_regions Z o));
